@@ -58,12 +58,12 @@ def run_vx(unit_list, units, workdir):
                     it['text_out'] = True
                 if 'vec_receivers' in e.opts:
                     it['vec_receivers'] = e.opts['vec_receivers'].split(',')
-                for k in ('into_as', 'slice_before', 'ret_name', 'slice_from', 'slice_block', 'frag_name', 'frag_params', 'frag_ret', 'frag_generics'):
+                for k in ('into_as', 'slice_before', 'ret_name', 'slice_from', 'slice_block', 'frag_name', 'frag_params', 'frag_ret', 'frag_generics', 'opaque_call_shared'):
                     if k in e.opts:
                         it[k] = e.opts[k]
                 if 'opaque_fields' in e.opts:
                     it['opaque_fields'] = e.opts['opaque_fields'].split(',')
-                for k in ('custom_iters', 'box_receivers', 'shared_cells', 'opaque_calls', 'eager_receivers', 'inline_closures', 'string_vars'):
+                for k in ('custom_iters', 'box_receivers', 'shared_cells', 'param_types', 'field_types', 'opaque_inits', 'opaque_calls', 'eager_receivers', 'inline_closures', 'string_vars'):
                     if k in e.opts:
                         it[k] = [x.strip() for x in e.opts[k].split(',')]
                 bl = (shapes().get(item_key(e)) or {}).get('loops')
